@@ -363,6 +363,19 @@ def decide(prop, tier, seed, t0):
             path = write_replay(prop, "input", None, None, {"failing_predicate": "rustc errors in the compile probe that could not be attributed to a case",
                                                             "rustc_diagnostics": cp["unattributed"][:5]})
             violations.append((path, ""))
+    if prop == "C15":
+        # every generated invocation is an item rustc parses, so each one reaches the macro and leaves a record. A case without
+        # a record means the compiler did not get through its expansion: the macro aborted the process, overflowed the stack or did
+        # not terminate -- worse than the panic the property rules out
+        for feat in ("off", "on"):
+            st = res["stats"].get(feat, {})
+            if st.get("missing_cases"):
+                cid = st["missing_sample"][0]
+                path = write_replay(prop, "input", cases[cid], None,
+                                    {"failing_predicate": "the invocation left no record: the compiler did not finish expanding it (abort, stack overflow or non-termination of the macro)",
+                                     "feature_unimock": feat == "on", "cases_without_record": st["missing_cases"], "first_cases_without_record": st["missing_sample"]})
+                violations.append((path, ""))
+                break
     if prop == "C17":
         # the theorems are about the model's option parser: they transfer while the model expands every invocation of the
         # metamorphic families exactly as the implementation does
